@@ -1,4 +1,6 @@
 import Girc.Proofs.Serialize
+import Girc.Gen.Skel
+import Girc.Spec.Skeletons
 /-
   C03 — one event is exactly one wire line. Property theorems only.
 -/
@@ -10,6 +12,11 @@ theorem no_crlf (e : Event) : CR ∉ eventBytes e ∧ LF ∉ eventBytes e := Pro
 
 /-- What `sendLoop`/`encode` put on the wire: the bytes, then CR LF. -/
 def wire (e : Event) : Bytes := eventBytes e ++ [CR, LF]
+
+/-- `wire` is what the code in the tree does (regenerated on every run): `sendLoop` hands every event to `encode`, which
+    writes `Bytes()`, then the two-byte terminator, then flushes — nothing is cut, padded or merged in between. -/
+theorem skel_wire : Gen.skel_sendLoop = Spec.Skel.skel_sendLoop ∧ Gen.skel_ircConn_encode = Spec.Skel.skel_ircConn_encode := by
+  decide +kernel
 
 /-- Exactly one line: the only CR/LF bytes of the wire form are the two terminating ones. -/
 theorem one_line (e : Event) :
